@@ -43,7 +43,16 @@ func (e *Entrypoint) Validate() error {
 	if strings.Contains(e.Name, "_") {
 		return ErrUnderlineInEntrypointName
 	}
+	if !isKeyElement(e.Name) {
+		return ErrInvalidEntrypointName
+	}
 	return nil
+}
+
+// isKeyElement tells if a name stays one element of a metadata key:
+// store keys are built with filepath.Join, which splits on '/' and drops "." and "..".
+func isKeyElement(name string) bool {
+	return name != "." && name != ".." && !strings.Contains(name, "/")
 }
 
 // Bind define a single bind
